@@ -486,6 +486,8 @@ def _jobs_c14(tier):
 
 
 PROPS["C14"] = {
+    # the edge is driven alone by harness processes: an exception escaping from it means items are not delivered as the property says
+    "crash_is_violation": True,
     "explanation": "Bounded symbolic simulation of the real Fleet edge / FleetStore driven by a harness loader and unloader process: load gaps, the waiting delay and the transit delay "
                    "are z3 reals (zero included), so loads during a trip, in the instant of departure and every phase of the periodic timer are covered. From the instants at which items "
                    "first appear in ready_items: every item is delivered no earlier than one round trip and no later than delay + one round trip after loading; for every delivery instant R the "
@@ -547,6 +549,8 @@ CONV_EXPL = ("Bounded symbolic simulation of the real ConveyorBelt edges (slotte
              "long and repeated stalls, also while items are entering). Entry, first-offered (first instant in ready_items) and removal instants E_i, R_i, G_i are terms over the symbolic gaps; ")
 
 PROPS["C12"] = {
+    # the edge is driven alone by harness processes: an exception escaping from it means items are not delivered as the property says
+    "crash_is_violation": True,
     "explanation": CONV_EXPL + "oracles: removal order = entry order; ledger occupancy <= capacity after every event; E_{i+1}-E_i >= item length / speed (slot delay); R_i-E_i >= belt length / speed "
                    "(capacity*delay); with an eager consumer R_i-E_i equals it and G_i = R_i.",
     "jobs": lambda tier: conveyor_jobs("C12", tier),
@@ -559,6 +563,8 @@ PROPS["C12"] = {
 }
 
 PROPS["C13"] = {
+    # the edge is driven alone by harness processes: an exception escaping from it means items are not delivered as the property says
+    "crash_is_violation": True,
     "explanation": CONV_EXPL + "oracles: a stall is an interval in which the head item is at the exit and not taken. Non-accumulating: no entry strictly inside a stall, and R_i = E_i + travel + "
                    "(stall time inside [E_i, R_i]) (nothing advances while stopped, everything resumes from where it stopped). Accumulating: R_i = max(E_i + travel, G_{i-1} + item length / speed) "
                    "(advance until touching the item ahead, one item length after it leaves), every item is eventually admitted, order preserved.",
